@@ -308,7 +308,10 @@ Proof.
   - (* Fantasy *)
     destruct ((match f_fant_req fam with
                | Some sl => match lookup_slot sl (cch s) with Some _ => true | None => false end
-               | None => true end) && f_fant_ok fam); cbn [fst]; [|exact HI].
+               | None => true end) && f_fant_ok fam &&
+              negb (existsb (fun e => in_slots (f_fant_copy fam) e &&
+                                      match e_g e with GNone => false | _ => true end) (cch s)));
+      cbn [fst]; [|exact HI].
     destruct wf_lists as [_ [_ [_ Hf]]].
     destruct (training s) eqn:Htr.
     + destruct (consult_all all_on fam s GNone (cch s) (f_fant_uses fam)) as [c2 es2] eqn:H2.
